@@ -134,6 +134,14 @@ class BasicContiguousReference
         ElementTraits::swap(rhs, lhs);
     }
 
+    // named references are lvalues: without this overload `using std::swap; swap(a, b);` prefers
+    // std::swap, which goes through a copy of the proxy and loses the values of one element
+    friend constexpr void swap(BasicContiguousReference& lhs,
+                               BasicContiguousReference& rhs) noexcept(ListTraits::IS_NOTHROW_SWAPPABLE)
+    {
+        ElementTraits::swap(rhs, lhs);
+    }
+
     template <bool OtherIsConst>
     [[nodiscard]] constexpr auto operator==(const cntgs::BasicContiguousReference<OtherIsConst, Parameter...>& other)
         const noexcept(ListTraits::IS_NOTHROW_EQUALITY_COMPARABLE)
